@@ -780,6 +780,7 @@ func init() {
 	RegisterTxKind("c17.node", c17BuildNode)
 	RegisterTxKind("c17.rt", c17BuildRuntime)
 	RegisterTxKind("c17.fund", c17BuildFund)
+	RegisterTxKind("c17.unfreeze", c17BuildUnfreeze)
 	RegisterWorkload("C17", &Workload{
 		Kinds: []string{
 			"c17.ent", "c17.ent", "c17.ent", "c17.ent",
@@ -787,6 +788,7 @@ func init() {
 			"c17.dereg",
 			"c17.rt", "c17.rt",
 			"c17.fund", "c17.fund",
+			"c17.unfreeze",
 		},
 		Weight: 105, // three quarters of the transactions
 		Tune: func(r *core.Rand, k *ChainKnobs) {
@@ -818,4 +820,51 @@ func init() {
 			}
 		},
 	})
+}
+
+// c17BuildUnfreeze asks to unfreeze a registered node (a frozen one when there is one), signed by
+// the node's entity, by another entity that lists the node in its own descriptor (an entity may
+// list any node; the list is only an allow-list), by some other entity, or by the transaction's
+// default signer.
+func c17BuildUnfreeze(w *World, op TxOp, v TxView, def signature.Signer, fee *transaction.Fee) (*transaction.Transaction, signature.Signer, error) {
+	ss := c17SessionFor(w)
+	rr := c17Rand(op)
+	ctx := context.Background()
+	st := registryState.NewImmutableState(v.Tree())
+	nodes, err := st.Nodes(ctx)
+	if err != nil || len(nodes) == 0 {
+		return nil, nil, nil
+	}
+	var frozen []*node.Node
+	for _, n := range nodes {
+		if ns, err := st.NodeStatus(ctx, n.ID); err == nil && ns != nil && ns.IsFrozen() {
+			frozen = append(frozen, n)
+		}
+	}
+	n := nodes[rr.Intn(len(nodes))]
+	if len(frozen) > 0 && rr.Chance(4, 5) {
+		n = frozen[rr.Intn(len(frozen))]
+	}
+	signer := def
+	switch rr.Pick([]int{3, 4, 2, 1}) {
+	case 0:
+		if s := ss.signers[n.EntityID]; s != nil {
+			signer = s
+		}
+	case 1:
+		// an entity (other than the owner) whose registered descriptor lists the node
+		for _, es := range ss.ents {
+			if es.Public().Equal(n.EntityID) {
+				continue
+			}
+			if e, err := st.Entity(ctx, es.Public()); err == nil && e != nil && e.HasNode(n.ID) {
+				signer = es
+				break
+			}
+		}
+	case 2:
+		signer = ss.ents[rr.Intn(len(ss.ents))]
+	}
+	nonce := uint64(int64(v.NextNonce(signer.Public())) + int64(op.NonceOff))
+	return registry.NewUnfreezeNodeTx(nonce, fee, &registry.UnfreezeNode{NodeID: n.ID}), signer, nil
 }
